@@ -37,7 +37,7 @@ CTYPES = [None, "text/plain", "text/html", "application/xml", "text/css", "appli
 CHARSETS = [None, "latin-1", "utf-8", "utf-16", "gb2312", "ascii", "bogus"]
 CHARSETS_T = CHARSETS + ["utf-32", "UTF-8"]
 DECLARED = ["utf-8", "latin-1", "gb2312", "utf-16", "bogus"]
-PREFIX = ["none", "bom", "meta", "xml", "css"]
+PREFIX = ["none", "bom", "meta", "xml", "css", "late-meta"]
 CLASSES = {"ascii": "a", "latin1-high": "\xe9", "bmp": "中", "astral": "\U0001f600", "surrogate": "\udc80"}
 BOM = "﻿"
 
@@ -49,6 +49,9 @@ def _prefix(kind, x):
         return BOM
     if kind == "meta":
         return f"<meta charset={x}>"
+    if kind == "late-meta":
+        # the declaration sits behind a long comment (get_text sniffs the whole body, not only its first kilobyte)
+        return "<!-- " + "x" * 1500 + f" --><meta charset={x}>"
     if kind == "xml":
         return f'<?xml version="1.0" encoding="{x}"?>'
     return f'@charset "{x}";'
@@ -76,7 +79,7 @@ def h_text(X, thorough):
     ct = X.choose("content_type", CTYPES)
     cs = X.choose("charset", CHARSETS_T if thorough else CHARSETS) if ct is not None else None
     pk = X.choose("prefix", PREFIX)
-    decl = X.choose("declared", DECLARED) if pk in ("meta", "xml", "css") else None
+    decl = X.choose("declared", DECLARED) if pk in ("meta", "xml", "css", "late-meta") else None
     c1 = X.choose("cp1", list(CLASSES))
     c2 = X.choose("cp2", ["none"] + (list(CLASSES) if thorough else ["latin1-high", "ascii"]))
     text = _prefix(pk, decl) + CLASSES[c1] + (CLASSES[c2] if c2 != "none" else "")
@@ -106,7 +109,7 @@ def h_text(X, thorough):
         got, strict_ok, err = None, False, e
     lenient = m.get_text(strict=False)
     # which reading applies
-    sniffed = cs is None and ((pk == "meta" and ct == "text/html") or (pk == "xml" and ct == "application/xml") or (pk == "css" and ct == "text/css"))
+    sniffed = cs is None and ((pk in ("meta", "late-meta") and ct == "text/html") or (pk == "xml" and ct == "application/xml") or (pk == "css" and ct == "text/css"))
 
     def same(g):
         return g == text or (text.startswith(BOM) and g == text[1:])
@@ -154,7 +157,7 @@ def h_second_assignment(X):
     ct = X.choose("content_type", CTYPES[1:])
     cs = X.choose("charset", CHARSETS)
     pk = X.choose("prefix", PREFIX)
-    decl = X.choose("declared", DECLARED) if pk in ("meta", "xml", "css") else None
+    decl = X.choose("declared", DECLARED) if pk in ("meta", "xml", "css", "late-meta") else None
     c1 = X.choose("cp1", ["ascii", "latin1-high", "bmp", "astral"])
     text = _prefix(pk, decl) + CLASSES[c1]
     h = http.Headers()
